@@ -214,6 +214,9 @@ class Ctx:
 
     def violation(self, text, replay_obj, name=None):
         name = name or "v%03d" % (len(self.violations) + 1)
+        if len(self.violations) >= 12:          # enough to look at; keep counting
+            self.violations.append((text, self.violations[-1][1]))
+            return self.violations[-1][1]
         path = self.write_replay(name, dict(replay_obj, what=text))
         self.violations.append((text, path))
         log("  !! %s" % text)
